@@ -547,7 +547,7 @@ class ExprMixin:
                 return self.container_models[kind].getitem(self, st, o, k)
         if isinstance(o, tuple) and isinstance(k, int):
             return [("val", o[k], st)]
-        if isinstance(o, ClassRef):  # Generic alias: InvokeConfig[P, R]
+        if isinstance(o, (ClassRef, ExtRef)):  # generic alias: InvokeConfig[P, R], MutableMapping[str, Any]
             return [("val", o, st)]
         raise Unsupported(f"subscript {o!r}[{k!r}]")
 
